@@ -4,6 +4,7 @@ CONSTANTS
   Sizes <- SSmall
   Opts <- OAll
   FlushOnWait = TRUE  FlushBeforeDirect = TRUE  ResetSlot = FALSE
+  Stall = FALSE  TimeoutSticky = TRUE
 SPECIFICATION Spec
-INVARIANTS TypeOK WholeInOrderOnePerQuery ReplyOptIsOwn
+INVARIANTS TypeOK WholeInOrderOnePerQuery StreamEndsAtFailedWrite ReplyOptIsOwn
 CHECK_DEADLOCK FALSE
